@@ -317,6 +317,32 @@ Fixpoint jnum_wf_b (j : jval) : bool :=
   | _ => true
   end.
 
+Definition scalar_kind_eqb (a b : scalar_kind) : bool :=
+  match a, b with
+  | KInt, KInt | KFloat, KFloat | KString, KString | KBoolean, KBoolean | KID, KID
+  | KDateTime, KDateTime | KLongInt, KLongInt | KCustom, KCustom => true
+  | _, _ => false
+  end.
+
+Fixpoint gval_mentions_time (g : gval) : bool :=
+  match g with
+  | GTime _ => true
+  | GList l => (fix go (l : list gval) : bool := match l with [] => false | x :: r => gval_mentions_time x || go r end) l
+  | GMap kvs => (fix go (l : list (name * gval)) : bool :=
+                   match l with [] => false | (_, x) :: r => gval_mentions_time x || go r end) kvs
+  | GTagged _ v => gval_mentions_time v
+  | _ => false
+  end.
+Fixpoint gval_mentions_int64 (g : gval) : bool :=
+  match g with
+  | GInt64 _ => true
+  | GList l => (fix go (l : list gval) : bool := match l with [] => false | x :: r => gval_mentions_int64 x || go r end) l
+  | GMap kvs => (fix go (l : list (name * gval)) : bool :=
+                   match l with [] => false | (_, x) :: r => gval_mentions_int64 x || go r end) kvs
+  | GTagged _ v => gval_mentions_int64 v
+  | _ => false
+  end.
+
 Section Case.
   Variable E : env.
   Variable T : list (bytes * option bytes).
@@ -463,6 +489,19 @@ Section Case.
     (if negb has_vars then ["literal-only"] else []) ++
     (if has_default then ["argument-default"] else []) ++ (if var_default then ["variable-default"] else []) ++
     (if null_var then ["null-variable"] else []) ++
+    (let leaf_is := fun k => existsb (fun ad => match leaf_type (in_type (snd ad)) with
+                                               | StNamed n => match aget n E with
+                                                              | Some (TScalar k') => scalar_kind_eqb k k'
+                                                              | _ => false
+                                                              end
+                                               | _ => false
+                                               end) argdefs in
+     (if leaf_is KDateTime then ["leaf-datetime"] else []) ++ (if leaf_is KLongInt then ["leaf-longint"] else [])) ++
+    (match am with
+     | Ok m => (if existsb (fun p => gval_mentions_time (snd p)) m then ["called-with-time"] else []) ++
+               (if existsb (fun p => gval_mentions_int64 (snd p)) m then ["called-with-int64"] else [])
+     | _ => []
+     end) ++
     (if existsb (fun p => negb (existsb (fun d => bytes_eqb (fst p) (vd_name d)) defs)) raw then ["undeclared-variable-value"] else []) ++
     (if existsb (fun d => negb (type_known E (vd_type d))) defs then ["variable-of-unknown-or-output-type"] else []) ++
     (match o_static o, ref with
